@@ -58,6 +58,9 @@ package sample
 //@   pure
 //@ extern func math.IsInf
 //@   pure
+//@ extern func math.Inf
+//@   pure reads none
+//@ axiom float32(math.Inf(-1)) < float32(math.Inf(1))
 // container/heap on a *tokenHeap: the frame names the boxed slice header; the elements of
 // that slice are permuted too, which no designator can express - no clause below reads them.
 // What the calls do to the length is stated at the call sites in topK (assume-at).
@@ -107,6 +110,21 @@ package sample
 //@   assert-at call (*Sampler).sample #2 : len(arg1) == len(logits) && ghost_applied == 1
 // sampling does not change the sampler: the next call uses the same parameters and the same generator
 //@   ensures s.rng == old(s.rng) && s.topK == old(s.topK) && s.grammar == old(s.grammar) && fsame(s.temperature, old(s.temperature)) && fsame(s.topP, old(s.topP)) && fsame(s.minP, old(s.minP))
+// extension round. "Sampling ALWAYS returns a token": the only error Sample raises itself is the one for an empty
+// logit vector (a length-1 vector is sampled like any other); every other error is sample's (the NaN guard);
+// at temperature zero without a grammar there is no error path at all for a non-empty vector
+//@   assert-at return #1 : len(logits) == 0
+//@   ghost-at entry : ghost_e1 := 0
+//@   ghost-at entry : ghost_e2 := 0
+//@   ghost-at after call (*Sampler).sample #1 : ghost_e1 := ite(result.1 != nil, 1, 0)
+//@   ghost-at after call (*Sampler).sample #2 : ghost_e2 := ite(result.1 != nil, 1, 0)
+//@   assert-at return #2 : ghost_e1 == 1
+//@   assert-at return #3 : ghost_e2 == 1
+//@   ensures s.temperature == 0.0 && len(logits) >= 1 ==> result.1 == nil
+// the grammar is advanced by exactly the token that is returned (a later draw is constrained by what was emitted)
+// (call sites are numbered in the engine's block order: #2 is the Accept of the first draw, #1 the one after the second)
+//@   assert-at call (*Grammar).Accept #2 : arg1 == ghost_t1 && ghost_inf == 0
+//@   assert-at call (*Grammar).Accept #1 : arg1 == ghost_t2
 
 //@ func (*Grammar).Apply
 //@   modifies tokens[all]
@@ -174,6 +192,14 @@ package sample
 //@   assert-at return #3 : ghost_nan == 0 && len(tokens) == ghost_nm && 0 <= ghost_idx && (ghost_idx < ghost_nm ==> result.0 == tokens[ghost_idx]) && result.1 == nil
 // reproducibility: no draw from the process-wide generator, at any site, when the sampler is seeded
 //@   assert-at call v2.Float32 : s.rng == nil
+// extension round. The greedy path cannot fail; the only error of the sampling path is the NaN guard's
+//@   ensures s.temperature == 0.0 ==> result.1 == nil
+// "top-k keeps exactly min(k, n) tokens" as seen by the pipeline: the list handed to temperature / softmax has
+// s.topK entries when 0 < s.topK < n and all n otherwise
+//@   ghost-at entry : ghost_n0 := len(tokens)
+//@   assert-at call temperature #1 : (0 < s.topK && s.topK < ghost_n0 ==> len(arg0) == s.topK) && (s.topK <= 0 || s.topK >= ghost_n0 ==> len(arg0) == ghost_n0)
+// the NaN guard inspects the total of the cumulative sums (the value of the last cell, see loop 1)
+//@   assert-at call math.IsNaN #1 : fsame(arg0, float64(sum))
 
 //@ func topK
 //@   requires len(ts) >= 1
@@ -203,6 +229,18 @@ package sample
 // the heap keeps the k LARGEST values seen: h[0] is the smallest kept value (min-heap, (tokenHeap).Less) and
 // it is evicted only for a strictly larger one
 //@   assert-at call heap.Pop #1 : ts[i].value > h[0].value
+// extension round. The heap is seeded with exactly the first k tokens (cell m holds token m; ids identify the cells, copy moves whole tokens): together with the
+// scan starting at k no token is left out or entered twice
+// (stated for the first and the last cell, quantifier-free: a shifted or shortened copy moves both)
+//@   assert-at call heap.Init #1 : len(h) == k && h[0].id == ts[0].id && h[k-1].id == ts[k-1].id
+// the scan over the remaining tokens starts right after the k tokens the heap was seeded with, advances one token
+// at a time (ghost_it = iterations of the scan loop so far) and runs to the end of the list
+//@   ghost-at after call heap.Init : ghost_it := 0
+//@   ghost-at call len #2 : ghost_it := ghost_it + 1
+//@   loop 1 invariant ghost_it == i - k
+//@   assert-at call len #3 : i >= len(ts)
+// every kept token was moved to the result: the heap is empty when the result is returned
+//@   assert-at return #2 : len(h) == 0 && i == -1
 
 // comparator of the sort: descending by value (1 = a after b)
 //@ func topK$1
@@ -220,6 +258,9 @@ package sample
 //@   modifies ts[all]
 //@   ensures forall k int :: 0 <= k && k < len(ts) ==> ts[k].id == old(ts[k].id)
 //@   loop 1 invariant forall k int :: 0 <= k && k < len(ts) ==> ts[k].id == old(ts[k].id)
+// extension round. The divisor is clipped from BELOW at 1e-7 (a zero or tiny temperature must not divide by ~0);
+// the infinity test that guards the finite-clamp looks at the logit itself, either sign
+//@   assert-at call math.IsInf #1 : !(temp < 0.00000010000000116860974) && arg1 == 0
 
 //@ func softmax
 //@   modifies ts[all]
@@ -231,6 +272,9 @@ package sample
 // not exceeded by any value still to be processed (the subtraction itself cannot be written in a contract)
 //@   loop 1 invariant forall k int :: 0 <= k && k <= rangeindex ==> !(ts[k].value > maxLogit)
 //@   loop 2 invariant forall k int :: rangeindex < k && k < len(ts) ==> !(ts[k].value > maxLogit)
+// extension round. maxLogit is not merely an upper bound: it is the -Inf it starts from or the value of a token seen
+// (an upper bound that is too high, e.g. a +Inf start, makes every exponential 0 and the sum 0: 0/0 = NaN, every draw fails)
+//@   loop 1 invariant fsame(maxLogit, float32(math.Inf(-1))) || exists k int :: 0 <= k && k <= rangeindex && fsame(maxLogit, ts[k].value)
 
 // topP / minP return a prefix of their argument (same backing array)
 //@ func topP
@@ -312,3 +356,7 @@ package sample
 //@   ensures len(*h) == old(len(*h)) - 1 && tagis(result, "token")
 // removes the LAST token (container/heap has moved the minimum there); the others stay
 //@   ensures forall k int :: 0 <= k && k < len(*h) ==> (*h)[k] == old((*h)[k])
+
+// extension round: the grammar sampler is advanced with the token Sample hands over
+//@ func (*Grammar).Accept
+//@   assert-at call (*Sampler).Accept #1 : arg1 == token
